@@ -28,8 +28,9 @@ def run_checker(f, *args, **kw):
     except BaseException as e:  # noqa
         return 'RAISED', '%s: %s' % (type(e).__name__, e)
     out = buf.getvalue()
-    first = out.strip().split('\n')[0] if out.strip() else ''
-    return ('OK' if first == 'OK' else 'NOT-OK'), out[:300]
+    # the verdict OK is "printed" when a line of the output is OK, wherever it stands (feedback lines may precede it)
+    lines = [l.strip() for l in out.strip().split('\n')] if out.strip() else []
+    return ('OK' if 'OK' in lines else 'NOT-OK'), out[:300]
 
 
 class Scratch:
